@@ -197,6 +197,7 @@ func vself() *verifThread {
 }
 
 func verifGoOrder(on bool)   {}
+func verifMapOrder(on bool)  {}
 func verifInterleave(on bool) {
 	if vstress() {
 		return
